@@ -161,6 +161,13 @@ def check(run):
         pts, q, kinds = place_charges(rng, sp_, 2)
         one_case(run, sp_, pts, q, kinds)
         run.count("declared (non-default) Cartesian component order")
+    from checks.common import DEGENERATE_DISPLACEMENTS, degenerate_pair
+    for k, d in enumerate(DEGENERATE_DISPLACEMENTS if run.tier != "quick" else DEGENERATE_DISPLACEMENTS[:: 2] + DEGENERATE_DISPLACEMENTS[1:2]):
+        for la, lb in ((1, 1), (2, 1)) if run.tier == "quick" else ((1, 1), (2, 1), (1, 2), (2, 2), (3, 1), (0, 2)):
+            s1, s2 = degenerate_pair(rng, la, lb, d)
+            pts, q, kinds = place_charges(rng, [s1, s2], 2)
+            one_case(run, [s1, s2], pts, q, kinds)
+        run.count("displacement with special structure")
     # nearly coincident centres (and a charge nearly on a centre)
     from checks.common import near_cases, near_pair
     for la, lb, sep, far in near_cases(run, 3)[:: (3 if quick else 1)]:
